@@ -1116,6 +1116,9 @@ func (g *Global) targetsLocked(cg *callgraph.Graph, f *ssa.Function, res *writeS
 							out = append(out, ts...)
 							if res != nil {
 								for _, k := range lk {
+									if strings.HasPrefix(k, "fresh:") {
+										continue // an object this function created itself: invisible to its callers
+									}
 									res.keys[k] = true
 								}
 							}
@@ -1159,6 +1162,40 @@ var leafLibTypes = map[string]bool{"strings.Builder": true, "bytes.Buffer": true
 func (g *Global) libSiteTargets(callee *ssa.Function, c *ssa.CallCommon) (out []*ssa.Function, ok bool) {
 	out, _, ok = g.libSiteTargetsKeys(callee, c)
 	return
+}
+
+// freshLibObject reports whether the leaf library object v was created by the calling function itself: a local
+// allocation, or the result of a package-level constructor of os / bytes / strings / bufio (os.CreateTemp,
+// bytes.NewBuffer, ...), which always return a new object. What a library call does to such an object cannot be
+// seen by the function's callers.
+func freshLibObject(v ssa.Value) bool {
+	for depth := 0; depth < 6; depth++ {
+		switch x := v.(type) {
+		case *ssa.MakeInterface:
+			v = x.X
+			continue
+		case *ssa.ChangeInterface:
+			v = x.X
+			continue
+		case *ssa.Alloc:
+			return true
+		case *ssa.Extract:
+			v = x.Tuple
+			continue
+		case *ssa.Call:
+			callee := x.Common().StaticCallee()
+			if callee == nil || callee.Pkg == nil || callee.Signature.Recv() != nil {
+				return false
+			}
+			switch callee.Pkg.Pkg.Path() {
+			case "os", "bytes", "strings", "bufio":
+				return true
+			}
+			return false
+		}
+		return false
+	}
+	return false
 }
 
 // leafGhostKeys: the specification state of a leaf library object (strings.Builder, bytes.Buffer, os.File, ...): a
@@ -1234,7 +1271,12 @@ func (g *Global) libSiteTargetsKeys(callee *ssa.Function, c *ssa.CallCommon) (ou
 			if !leafLibTypes[name] {
 				return nil, nil, false
 			}
-			keys = append(keys, g.leafGhostKeys(name)...)
+			for _, k := range g.leafGhostKeys(name) {
+				if freshLibObject(a) {
+					k = "fresh:" + k
+				}
+				keys = append(keys, k)
+			}
 		case *types.Interface:
 			v := a
 			for {
@@ -1259,7 +1301,12 @@ func (g *Global) libSiteTargetsKeys(callee *ssa.Function, c *ssa.CallCommon) (ou
 				nt := namedOf(ct)
 				if nt != nil && nt.Obj().Pkg() != nil && !g.inRepo(nt.Obj().Pkg()) {
 					if leafLibTypes[nt.Obj().Pkg().Path()+"."+nt.Obj().Name()] {
-						keys = append(keys, g.leafGhostKeys(nt.Obj().Pkg().Path()+"."+nt.Obj().Name())...)
+						for _, k := range g.leafGhostKeys(nt.Obj().Pkg().Path() + "." + nt.Obj().Name()) {
+							if freshLibObject(v) {
+								k = "fresh:" + k
+							}
+							keys = append(keys, k)
+						}
 						continue
 					}
 					// a library wrapper of unknown content: like an unknown dynamic type of the static interface
@@ -1806,7 +1853,7 @@ func (g *Global) callWrites(fn *ssa.Function, c *ssa.CallCommon) (map[string]boo
 		if u := g.unitFor(callee); (u == nil || (u.Trusted && u.ModInferred)) && !g.isPureLib(callee) {
 			if ts, lk, ok := g.libSiteTargetsKeys(callee, c); ok {
 				for _, k := range lk {
-					res[k] = true
+					res[strings.TrimPrefix(k, "fresh:")] = true
 				}
 				if u != nil {
 					// trusted library contract with `modifies inferred, ...`: its listed items plus what this call site
